@@ -661,7 +661,7 @@ func retryAfterAcrossSuccess() {
 		}
 		run.Eval(1)
 		if !ok {
-			run.Inconclusive("retry-after interleaving was not reached (no back-off sleep observed at the client)")
+			run.Count("retry_after_interleavings_not_reached", 1)
 		} else {
 			_, errC := rc.TagList(ctx, rcx.Ref(e.up, e.repo, "v1"))
 			<-bDone
@@ -670,7 +670,8 @@ func retryAfterAcrossSuccess() {
 			mu.Unlock()
 			run.Count("retry_after_interleavings", 1)
 			if errC != nil || tC.IsZero() {
-				run.Inconclusive(fmt.Sprintf("request after the interleaving failed: %v", errC))
+				run.Count("retry_after_interleavings_not_reached", 1)
+				run.Put("retry_after_interleaving_not_reached_reason", fmt.Sprintf("request after the interleaving failed: %v", errC))
 			} else if gap < time.Second {
 				run.Violation("retry-after-dropped-by-concurrent-success", fmt.Sprintf("server answered 429 Retry-After: 1; after an older download finished a new request arrived only %v after that reply", gap),
 					map[string]any{"sequence": "A=blob GET held mid-body; B=manifest HEAD -> 429 Retry-After: 1; client sleeping for B; A released and returned; C=tag list started", "gap": gap.String(), "requests": reqList(e.w)})
@@ -790,6 +791,12 @@ func terminationAfterFailures() {
 			run.Inconclusive("termination scenario: HEAD reached the server but did not finish within 15 s")
 		}
 		e.w.Close()
+	}
+}
+
+func retryAfterNonVacuity() {
+	if run.Get("retry_after_kept_across_success") == 0 && run.Get("retry_after_interleavings_not_reached") > 0 {
+		run.Inconclusive("the Retry-After interleaving was never reached")
 	}
 }
 
@@ -968,9 +975,11 @@ func mirrorsBackingOff() {
 		wit := map[string]any{"operation": name, "first_read_err": fmt.Sprint(err1), "second_read_err": fmt.Sprint(err2), "second_read_requests": reqList(e.w), "call_started_after_the_429": tCall.Sub(t).String()}
 		switch {
 		case t.IsZero() || err1 != nil:
-			run.Inconclusive(fmt.Sprintf("back-off order scenario %d: the first read did not meet the mirror's 429 and succeed (%v)", rep, err1))
+			run.Count("backing_off_scenarios_not_reached", 1)
+			run.Put("backing_off_scenario_not_reached_reason", fmt.Sprintf("scenario %d: the first read did not meet the mirror's 429 and succeed (%v)", rep, err1))
 		case !tCall.Before(t.Add(3 * time.Second)):
-			run.Inconclusive("back-off order scenario: the second read could only be started after the pause had ended")
+			run.Count("backing_off_scenarios_not_reached", 1)
+			run.Put("backing_off_scenario_not_reached_reason", "the second read could only be started after the pause had ended")
 		case first == m.Name:
 			run.Violation("mirror-order/backing-off-host-first", fmt.Sprintf("%s: the mirror had asked for a pause of 3 s (Retry-After) %v before the read started, yet it was contacted first instead of the registry", name, tCall.Sub(t)), wit)
 		case err2 != nil:
@@ -979,6 +988,12 @@ func mirrorsBackingOff() {
 			run.Count("backing_off_mirror_offered_last", 1)
 		}
 		e.w.Close()
+	}
+}
+
+func backingOffNonVacuity() {
+	if run.Get("backing_off_mirror_offered_last") == 0 && run.Get("backing_off_scenarios_not_reached") > 0 {
+		run.Inconclusive("no back-off order scenario could be evaluated")
 	}
 }
 
@@ -1212,10 +1227,12 @@ func main() {
 		"bounded progress: an operation exceeding 300 requests against a server that never makes progress is a violation; the 4 s context is only a safety net")
 	attemptsAndBackoff()
 	retryAfterAcrossSuccess()
+	retryAfterNonVacuity()
 	terminationAfterFailures()
 	absorb()
 	mirrors()
 	mirrorsBackingOff()
+	backingOffNonVacuity()
 	mirrorIgnoringRange()
 	hostile()
 	for _, rep := range ev.RaceReports(filepath.Join(os.Getenv("VERIF_BIN"), "race")) {
